@@ -60,6 +60,9 @@ type Case struct {
 	// context (the underlying writer is what ServeHTTP was given); before that
 	// request, another one on the same application registered PriorHooks
 	// functions on its own response and wrote nothing.
+	// Other: a second response writer is alive at the same time and gets a
+	// before-function of its own whenever the one under test gets one.
+	Other      bool `json:"another_writer_alive,omitempty"`
 	ViaFlame   bool `json:"writer_of_a_request_context,omitempty"`
 	PriorHooks int  `json:"functions_registered_by_an_earlier_request,omitempty"`
 	Ops        []Op `json:"ops"`
@@ -141,6 +144,13 @@ func checkCase(c Case) (out evid.Outcome) {
 		under = flamego.NewResponseWriter(http.MethodGet, under)
 	}
 	var hookRuns []int // actual runs, in order
+	// a second response (another request in flight, say) whose writer is alive
+	// while the one under test is used
+	var other flamego.ResponseWriter
+	var otherRuns, otherWant []int
+	if c.Other && !c.ViaFlame {
+		other = flamego.NewResponseWriter(http.MethodGet, &spy{h: http.Header{}})
+	}
 	body := func(w flamego.ResponseWriter) (out evid.Outcome) {
 		// model
 		mStatus, mSize := 0, 0
@@ -296,6 +306,12 @@ func checkCase(c Case) (out evid.Outcome) {
 				if !late {
 					mHooks = append(mHooks, id)
 				}
+				if other != nil {
+					// the other response gets a function of its own first
+					oid := 7000 + id
+					otherWant = append([]int{oid}, otherWant...)
+					other.Before(func(flamego.ResponseWriter) { otherRuns = append(otherRuns, oid) })
+				}
 				w.Before(func(rw flamego.ResponseWriter) {
 					if late {
 						// registered after the status went out: the statement speaks about
@@ -379,6 +395,21 @@ func checkCase(c Case) (out evid.Outcome) {
 		if nHooks > hooksAtTrigger && triggered {
 			out.Classes = append(out.Classes, "late-hook")
 		}
+		if other != nil {
+			// the other response is sent last: its own functions, nobody else's
+			runsBefore := fmt.Sprint(hookRuns)
+			other.WriteHeader(204)
+			if fmt.Sprint(otherRuns) != fmt.Sprint(otherWant) || fmt.Sprint(hookRuns) != runsBefore {
+				return fail(out, "hooks", "a second response writer, alive at the same time, ran %v (want its own functions %v); the functions of the writer under test ran %s before and %v after that; %s", otherRuns, otherWant, runsBefore, hookRuns, js(c))
+			}
+			for _, id := range hookRuns {
+				if id >= 7000 && id < 9000 {
+					return fail(out, "hooks", "the writer under test ran %v: %d was registered on another response writer; %s", hookRuns, id, js(c))
+				}
+			}
+			out.NonTrivial = true
+			out.Classes = append(out.Classes, "two-response-writers-alive")
+		}
 		return out
 	}
 	if !c.ViaFlame {
@@ -407,7 +438,14 @@ func checkCase(c Case) (out evid.Outcome) {
 		ran = true
 		out = body(ctx.ResponseWriter())
 	}
-	f.Any("/", h)
+	if c.Method == http.MethodGet || c.Method == http.MethodHead {
+		// (the HEAD route that AutoHead declares next to a GET route is a HEAD
+		// route like any other)
+		f.AutoHead(true)
+		f.Get("/", h)
+	} else {
+		f.Any("/", h)
+	}
 	f.NotFound(h)
 	mkReq := func() *http.Request {
 		return &http.Request{Method: c.Method, URL: &url.URL{Path: "/"}, Header: http.Header{}, Proto: "HTTP/1.1", ProtoMajor: 1, ProtoMinor: 1}
@@ -453,6 +491,8 @@ func genCase(t *rapid.T) Case {
 	}
 	if c.ViaFlame {
 		c.PriorHooks = rapid.IntRange(0, 2).Draw(t, "priorhooks")
+	} else {
+		c.Other = rapid.IntRange(0, 3).Draw(t, "other") == 0
 	}
 	n := rapid.IntRange(1, 14).Draw(t, "nops")
 	hook := 0
